@@ -38,6 +38,7 @@ import (
 	"os/exec"
 	"sort"
 	"strings"
+	"syscall"
 	"time"
 
 	p9p "github.com/frobnitzem/go-p9p"
@@ -60,8 +61,9 @@ type step struct {
 }
 
 type script struct {
-	I     int    `json:"i"`
-	Steps []step `json:"steps"`
+	I        int    `json:"i"`
+	Steps    []step `json:"steps"`
+	Deadline int    `json:"deadline,omitempty"` // ms: the session context is context.WithTimeout(…)
 }
 
 // ---------------------------------------------------------------- child
@@ -81,6 +83,7 @@ type child struct {
 	nextCall  uint32
 	nextRid   uint32
 	dead      bool // the transport has been failed by the script
+	deadline  bool // the session context carries a deadline
 	broken    bool // an oracle failed in a way that makes the rest of the script meaningless
 }
 
@@ -123,6 +126,12 @@ func (c *child) req(mt uint8) {
 	p := peer.Start(context.Background(), c.sess, mt, id, false)
 	f, err := c.peer.NextFrame()
 	if err != nil {
+		if c.deadline && c.ctx.Err() != nil {
+			// the machine was too slow to get the calls out before the session deadline: not an observation
+			c.emit("X", "deadline passed before the script reached it")
+			c.broken = true
+			return
+		}
 		c.fail("transport.handle:no-frame", fmt.Sprintf("call %d: %v", id, err))
 		c.broken = true
 		return
@@ -276,6 +285,13 @@ func (c *child) failTransport(how string, garbage []byte) {
 		c.stop()
 		c.ev(sx.L(sx.Sym("ctxdone")))
 		c.obs(sx.Sym("none"))
+	case "deadline":
+		select {
+		case <-c.ctx.Done():
+		case <-time.After(peer.Wait):
+		}
+		c.ev(sx.L(sx.Sym("ctxdone")))
+		c.obs(sx.Sym("none"))
 	case "close":
 		c.peer.Conn.Close()
 		c.ev(sx.L(sx.Sym("fatal")))
@@ -324,6 +340,26 @@ func (c *child) failTransport(how string, garbage []byte) {
 	}
 }
 
+func cpuTime() time.Duration {
+	var ru syscall.Rusage
+	syscall.Getrusage(syscall.RUSAGE_SELF, &ru)
+	return time.Duration(ru.Utime.Nano() + ru.Stime.Nano())
+}
+
+// atRest: after the session context's deadline the client's goroutines must
+// stop working.  The script is idle during the window, so an idle process uses
+// (almost) no CPU; a goroutine spinning on an error it keeps retrying uses
+// about one CPU.  A loaded machine can only lower what a spinner gets.
+func (c *child) atRest() {
+	time.Sleep(150 * time.Millisecond)
+	const window = 500 * time.Millisecond
+	c0 := cpuTime()
+	time.Sleep(window)
+	if used := cpuTime() - c0; used > window/2 {
+		c.fail("transport.handle:reader-spins-after-ctx-deadline", fmt.Sprintf("the session context's deadline has passed, every call has returned, the script is idle, yet the client process burnt %v of CPU in %v: a goroutine of the client retries an error that will never go away", used, window))
+	}
+}
+
 // late: calls started after (or while) the transport fails must return an error.
 func (c *child) late(mt uint8, n int) {
 	for i := 0; i < n; i++ {
@@ -356,8 +392,17 @@ func runScript(out *bufio.Writer, s script) {
 			c.peer.Conn.Close()
 		}
 	}()
+	if s.Deadline > 0 {
+		c.stop()
+		c.ctx, c.stop = context.WithTimeout(context.Background(), time.Duration(s.Deadline)*time.Millisecond)
+		c.deadline = true
+	}
 	sess, p, err := peer.Dial(c.ctx)
 	if err != nil {
+		if c.deadline && c.ctx.Err() != nil {
+			c.emit("X", "deadline passed during the version negotiation")
+			return
+		}
 		c.fail("harness.dial", err.Error())
 		return
 	}
@@ -381,6 +426,9 @@ func runScript(out *bufio.Writer, s script) {
 		case "fail":
 			g, _ := hex.DecodeString(st.Bytes)
 			c.failTransport(st.How, g)
+			if st.How == "deadline" && !c.broken {
+				c.atRest()
+			}
 		case "late":
 			c.late(st.MT, st.N)
 		}
@@ -467,8 +515,17 @@ func malformed(rng *prng.R, how string, withDecoderDefects bool) []byte {
 	panic("malformed: " + how)
 }
 
-func genScript(rng *prng.R, i int, decoderDefects bool) script {
+func genScript(rng *prng.R, i int, decoderDefects bool, deadline bool) script {
 	var st []step
+	if deadline {
+		// the session context carries a deadline which passes with 0..4 calls pending
+		for k := rng.Intn(5); k > 0; k-- {
+			st = append(st, step{Op: "req", MT: peer.Methods[rng.Intn(len(peer.Methods))]})
+		}
+		st = append(st, step{Op: "fail", How: "deadline"})
+		st = append(st, step{Op: "late", MT: peer.Methods[rng.Intn(len(peer.Methods))], N: rng.Range(1, 2)})
+		return script{I: i, Steps: st, Deadline: 500}
+	}
 	pend := rng.Pick(0, 0, 1, 1, 2, 3, 4, 6, 8, 12, 16)
 	nsteps := rng.Range(0, 25)
 	live := 0
@@ -523,6 +580,7 @@ func genScript(rng *prng.R, i int, decoderDefects bool) script {
 }
 
 type scriptResult struct {
+	skipped     bool
 	events, obs []string
 	writes      []string
 	fails       []map[string]string
@@ -556,6 +614,7 @@ func main() {
 	rng := prng.New(r.Seed)
 	n := r.N(300, 8000)
 	scripts := make([]script, n)
+	every := n / r.N(6, 40) // this many scripts let a session-context deadline pass (each costs ~1.3 s of waiting)
 	file := r.Out + "/scripts.jsonl"
 	f, err := os.Create(file)
 	if err != nil {
@@ -563,7 +622,7 @@ func main() {
 	}
 	w := bufio.NewWriter(f)
 	for i := range scripts {
-		scripts[i] = genScript(rng.Fork(), i, *decoderDefects)
+		scripts[i] = genScript(rng.Fork(), i, *decoderDefects, i%every == 3)
 		b, _ := json.Marshal(scripts[i])
 		w.Write(b)
 		w.WriteByte('\n')
@@ -610,6 +669,8 @@ func main() {
 					results[cur].started = true
 				case 'D':
 					results[cur].done = true
+				case 'X':
+					results[cur].skipped = true
 				case 'E':
 					results[cur].events = append(results[cur].events, body)
 				case 'O':
@@ -686,9 +747,13 @@ func main() {
 		}
 	}
 
+	skipped := 0
 	for i := range results {
 		res := &results[i]
-		if !res.started {
+		if !res.started || res.skipped {
+			if res.skipped {
+				skipped++
+			}
 			continue
 		}
 		nt := false
@@ -715,6 +780,7 @@ func main() {
 			r.Fail(fl["key"], fl["what"], c, map[string]interface{}{"bytes_sent_to_client": res.writes, "script": scripts[i].Steps})
 		}
 	}
+	r.Extra["scripts_skipped_machine_too_slow"] = skipped
 	r.Extra["child_crashes"] = crashes
 	r.Extra["scripts"] = n
 }
